@@ -149,6 +149,7 @@ func (t *tr) callWrites(c *ast.CallExpr) []ast.Expr {
 	if sig.Recv() != nil && (isBigLib(sig.Recv().Type()) || isElem(sig.Recv().Type())) && !translatedHere(t, fn) {
 		sel := c.Fun.(*ast.SelectorExpr)
 		name := fn.Name()
+		sel = &ast.SelectorExpr{X: t.chainRoot(sel.X), Sel: sel.Sel}
 		if isElem(sig.Recv().Type()) && curLimb {
 			if _, ok := limbPrims[name]; ok {
 				return []ast.Expr{sel.X}
@@ -178,7 +179,7 @@ func (t *tr) callWrites(c *ast.CallExpr) []ast.Expr {
 	}
 	var argExprs []ast.Expr
 	if fi.hasRecv {
-		argExprs = append(argExprs, c.Fun.(*ast.SelectorExpr).X)
+		argExprs = append(argExprs, t.chainRoot(c.Fun.(*ast.SelectorExpr).X))
 	}
 	argExprs = append(argExprs, c.Args...)
 	var r []ast.Expr
